@@ -17,6 +17,9 @@ instance (c : Ctl) (v : Pod) : Decidable (PodLabelGood c v) := by
   unfold PodLabelGood
   cases findPod c.pods v.ns v.name <;> exact inferInstance
 
+instance (c : Ctl) (v : Slice) : Decidable (SliceKeepsWaiting c v) := by
+  unfold SliceKeepsWaiting; exact inferInstance
+
 instance (c : Ctl) (ns name : String) : Decidable (PodDelGood c ns name) := by
   unfold PodDelGood; exact inferInstance
 
